@@ -32,7 +32,14 @@ TCase ==
                /\ Chk("ValidC", t.obs.valid)
                /\ Chk("GrainLaw", t.obs.tree = law)
                /\ Chk("BindingEnergyConstant", t.obs.eb_ok)
-TSpec == TInit /\ [][TCase \/ TEb]_<<tid, l, explicit, user>>
+(* the grain density a population's rates are written with (the derived quantity gdens<g> of the network's own grain object) is the sum of
+   the abundances of THAT population's grain species, each once -- whatever other populations the network holds *)
+TDensity ==
+  /\ Traces[tid].kind = "density" /\ l = 1 /\ l' = 2 /\ UNCHANGED <<tid, explicit, user>>
+  /\ LET t == Traces[tid] IN
+       /\ Chk("Rendered", ~t.obs.refused)
+       /\ Chk("GrainDensityIsItsOwnPopulation", t.ev[1].summands = t.ev[1].own /\ t.ev[1].each_once)
+TSpec == TInit /\ [][TCase \/ TEb \/ TDensity]_<<tid, l, explicit, user>>
 Track == TLCSet(tid, IF l > TLCGet(tid) THEN l ELSE TLCGet(tid))
 Verdicts == \A i \in 1..NT : PrintT(<<"VERDICT", Traces[i].tid, TLCGet(i), IF Traces[i].kind = "eb" THEN Len(Traces[i].ev) + 1 ELSE 2>>)
 =============================================================================
